@@ -28,10 +28,10 @@ type DirScript struct {
 	Bufs       []int  `json:"bufs"`        // reader buffer sizes (>= 1), cycled
 	PauseEvery int    `json:"pause_every"` // reader sleeps PauseUs after every PauseEvery reads (0: never)
 	PauseUs    int    `json:"pause_us"`
-	StopAfter  int    `json:"stop_after"`        // reader closes its end once it has read this many bytes (< 0: reads to end-of-stream)
+	StopAfter  int    `json:"stop_after"`           // reader closes its end once it has read this many bytes (< 0: reads to end-of-stream)
 	ZeroEvery  int    `json:"zero_every,omitempty"` // every ZeroEvery-th Read of the reader uses a zero-length buffer (0: never)
-	Kicks      int    `json:"kicks,omitempty"`   // a third goroutine sets a past write deadline on the writing end this many times
-	KickUs     int    `json:"kick_us,omitempty"` // ... this far apart; the writer clears the deadline and carries on
+	Kicks      int    `json:"kicks,omitempty"`      // a third goroutine sets a past write deadline on the writing end this many times
+	KickUs     int    `json:"kick_us,omitempty"`    // ... this far apart; the writer clears the deadline and carries on
 }
 
 // StreamScript is one stream: Dir[0] is written by the opener, Dir[1] by the
